@@ -347,13 +347,23 @@ func (p *polling) send(packets []*packet.Packet) {
 		}
 	}
 
+	var data types.BufferInterface
+	var err error
 	if p.Protocol() == 3 {
-		data, _ := p.Parser().EncodePayload(packets, p.SupportsBinary())
-		p.write(data, option)
+		data, err = p.Parser().EncodePayload(packets, p.SupportsBinary())
 	} else {
-		data, _ := p.Parser().EncodePayload(packets)
-		p.write(data, option)
+		data, err = p.Parser().EncodePayload(packets)
 	}
+	if err != nil {
+		// the data of a packet could not be read (the application's reader
+		// failed): there is no payload to write, the transport fails as the
+		// websocket and webtransport transports do in this case. The poll request
+		// has not been used: it is there for the close packet.
+		p.SetWritable(p.req.Load() != nil)
+		p.OnError("payload encode error", err)
+		return
+	}
+	p.write(data, option)
 }
 
 // Writes data as response to poll request.
